@@ -394,7 +394,7 @@ impl Scenario for C11 {
             ctx.check::<C11>(&case);
         }
         // a round trip with other tunnels' traffic in between
-        {
+        if ctx.history_this_run() {
             let n = wl.urange(2, 4);
             let secrets = related_secrets(&mut wl, n);
             let mut sw2 = sw.clone();
@@ -882,28 +882,30 @@ impl Scenario for C12 {
             ctx.check::<C12>(&Case12::ForeignHide(hc.clone()));
             ctx.check::<C12>(&Case12::Hide(hc));
         }
-        // a call history over related secrets
-        let n = wl.urange(2, 4);
-        let secrets = related_secrets(&mut wl, n);
-        let mut sw2 = sw.clone();
-        if wl.chance(2, 3) {
-            sw2.size = SizeRegime::Typical;
-        }
-        let mut steps = Vec::new();
-        for s in secrets {
-            let attr = *wl.pick(&ALL_ATTRS);
-            let mut hc = gen_hide_case(&mut wl, &sw2, attr, &mut sm);
-            hc.secret = s;
-            if blocks_of(&hc) < 2 && wl.chance(3, 4) {
-                let room = 1008usize.saturating_sub(2 + spec_payload(&hc.avp).len());
-                let ll = wl.urange(16, 48).min(room);
-                hc.lp = wl.bytes(ll);
+        if ctx.history_this_run() {
+            // a call history over related secrets
+            let n = wl.urange(2, 4);
+            let secrets = related_secrets(&mut wl, n);
+            let mut sw2 = sw.clone();
+            if wl.chance(2, 3) {
+                sw2.size = SizeRegime::Typical;
             }
-            steps.push(if wl.chance(2, 3) { Case12::Hide(hc) } else { Case12::ForeignHide(hc) });
+            let mut steps = Vec::new();
+            for s in secrets {
+                let attr = *wl.pick(&ALL_ATTRS);
+                let mut hc = gen_hide_case(&mut wl, &sw2, attr, &mut sm);
+                hc.secret = s;
+                if blocks_of(&hc) < 2 && wl.chance(3, 4) {
+                    let room = 1008usize.saturating_sub(2 + spec_payload(&hc.avp).len());
+                    let ll = wl.urange(16, 48).min(room);
+                    hc.lp = wl.bytes(ll);
+                }
+                steps.push(if wl.chance(2, 3) { Case12::Hide(hc) } else { Case12::ForeignHide(hc) });
+            }
+            let case = Case12::History(steps);
+            ctx.obs.distinct(fnv1a(&serde_json::to_vec(&case).unwrap()));
+            ctx.check::<C12>(&case);
         }
-        let case = Case12::History(steps);
-        ctx.obs.distinct(fnv1a(&serde_json::to_vec(&case).unwrap()));
-        ctx.check::<C12>(&case);
     }
     fn execute(case: &Case12, obs: &mut Obs) -> Result<(), Failure> {
         exec_c12(case, obs)
